@@ -396,8 +396,35 @@ static void tree_op(std::vector<std::string>& tk) {
     if (name == "mixeq") {
       Dense_Row yd(yrow); Dense_Row xd(row);
       bool want = (xv == yv);
-      if ((row == yd) != want || (yd == row) != want || (xd == yrow) != want || (row == yrow) != want || (xd == yd) != want)
+      if ((row == yd) != want || (yd == row) != want || (xd == yrow) != want || (row == yrow) != want || (xd == yd) != want
+          || (yrow == row) != want || (yrow == xd) != want)
         std::cout << "!MIXEQ reg=" << r << " other=" << s << "\n";
+      // explicitly stored zeroes are not part of a row's value: the same comparisons, both ways round, on copies
+      // that store zeroes at indices the originals do not store; and rows that differ in exactly one coefficient
+      // sitting next to stored zeroes must compare different (sparse/sparse, sparse/dense, dense/sparse)
+      {
+        dim limx = nx < 48 ? nx : 48, limy = ny < 48 ? ny : 48;
+        Sparse_Row az(row), yz(yrow);
+        for (dim i = 0; i < limx; i += 2) az.insert(i);
+        for (dim i = 1; i < limy; i += 3) yz.insert(i);
+        bool bad = !az.OK() || !yz.OK();
+        const Sparse_Row* xs[2] = { &row, &az };
+        const Sparse_Row* ys[2] = { &yrow, &yz };
+        for (int a = 0; a < 2; ++a)
+          for (int b = 0; b < 2; ++b)
+            if ((*xs[a] == *ys[b]) != want || (*ys[b] == *xs[a]) != want
+                || (*xs[a] == yd) != want || (xd == *ys[b]) != want) bad = true;
+        if (!(az == row) || !(row == az) || !(yz == yrow) || !(yrow == yz) || !(az == xd) || !(xd == az)) bad = true;
+        for (dim j = 0; j < limx && !bad; ++j) {
+          if (xv[j] != 0) continue;
+          Sparse_Row b1(az); b1[j] = 7;
+          Sparse_Row b2(row); b2[j] = 7;
+          Dense_Row bd(b2);
+          if ((az == b1) || (b1 == az) || (row == b1) || (b1 == row) || (az == b2) || (b2 == az)
+              || (row == b2) || (b2 == row) || (az == bd) || (bd == az) || (xd == b1) || (b1 == xd)) bad = true;
+        }
+        if (bad) std::cout << "!MIXEQ zeros=1 reg=" << r << " other=" << s << "\n";
+      }
     }
     else if (name == "mixswap") {
       Sparse_Row a(row); Dense_Row b(yrow);
